@@ -45,6 +45,7 @@ noncomputable instance instPPOpsReal : PPOps ℝ where
   log10 x := Real.log x / Real.log 10
   exp := Real.exp
   sqrt := Real.sqrt
+  cbrt x := if 0 ≤ x then x ^ (1 / 3 : ℝ) else -((-x) ^ (1 / 3 : ℝ))
   pi := Real.pi
   posInf := 0
   negInf := 0
@@ -78,6 +79,7 @@ noncomputable instance instPPOpsReal : PPOps ℝ where
 @[simp] theorem r_log10 (a : ℝ) : PPOps.log10 a = Real.log a / Real.log 10 := rfl
 @[simp] theorem r_exp (a : ℝ) : PPOps.exp a = Real.exp a := rfl
 @[simp] theorem r_sqrt (a : ℝ) : PPOps.sqrt a = Real.sqrt a := rfl
+@[simp] theorem r_cbrt (a : ℝ) : PPOps.cbrt a = if 0 ≤ a then a ^ (1 / 3 : ℝ) else -((-a) ^ (1 / 3 : ℝ)) := rfl
 @[simp] theorem r_pi : (PPOps.pi : ℝ) = Real.pi := rfl
 @[simp] theorem r_isPosInf (a : ℝ) : PPOps.isPosInf a = false := rfl
 @[simp] theorem r_isNegInf (a : ℝ) : PPOps.isNegInf a = false := rfl
